@@ -53,6 +53,13 @@ static void pair_T(const ArithC &c, vf::Obs &o) {
   SAME_FN(o, (a / cq), ref::scale(fa, 1 / cr), "a/c");
   SAME_FN(o, (-a), ref::scale(fa, R(-1)), "-a");
   SAME_FN(o, (a * Q(0)), ref::scale(fa, R(0)), "a*0");
+  // ONE object in both operand positions (an identity-based shortcut must still be the pointwise operation)
+  SAME_FN(o, (a + a), ref::scale(fa, R(2)), "a+a (same object)");
+  SAME_FN(o, (a - a), ref::scale(fa, R(0)), "a-a (same object)");
+  SAME_FN(o, (a * a), ref::mul(fa, fa), "a*a (same object)");
+  SAME_FN(o, (b * b), ref::mul(fb, fb), "b*b (same object)");
+  { std::vector<Q> cf{cq, Q(-2), Q(1)}; std::vector<bspline::Spline<Q, oa>> v{a, a, a};
+    SAME_FN(o, bspline::linearCombination(cf, v), ref::scale(fa, cr - 1), "linearCombination of three copies of one spline"); }
   { // result of the product is supported only on common intervals (and valid even without overlap)
     auto p = a * b;
     i64 lo = std::max(c.a.s, c.b.s), hi = std::min(c.a.e, c.b.e);
